@@ -226,17 +226,21 @@ class Program:
 
     # ------------------------------------------------------------------ load
     def _load(self) -> None:
+        trees = {}
+        for rel in sorted(self.sources):
+            try:
+                trees[rel] = ast.parse(self.sources[rel], filename=rel)
+                canonical_none_tests(trees[rel])
+            except SyntaxError as e:
+                raise AnalysisError(f"cannot parse {rel}: {e}")
+        canonical_package_forms(trees)
         for rel in sorted(self.sources):
             src = self.sources[rel]
             path = os.path.join(self.root, rel)
             modname = rel[:-3].replace(os.sep, ".")
             if modname.endswith(".__init__"):
                 modname = modname[: -len(".__init__")]
-            try:
-                tree = ast.parse(src, filename=rel)
-                canonical_none_tests(tree)
-            except SyntaxError as e:
-                raise AnalysisError(f"cannot parse {rel}: {e}")
+            tree = trees[rel]
             mod = ModuleInfo(modname, path, rel, src, tree)
             self.modules[modname] = mod
             self._index_module(mod)
@@ -662,3 +666,115 @@ def canonical_none_tests(tree: ast.Module) -> int:
     if count[0]:
         ast.fix_missing_locations(tree)
     return count[0]
+
+
+
+def init_only_attributes(trees) -> set:
+    """Attribute names A such that every store to `<x>.A` anywhere in the package is `self.A = ...` inside an `__init__`,
+    no class defines A as a method / property / class attribute, and the package uses no setattr / delattr."""
+    stored_in_init, stored_elsewhere, defined = set(), set(), set()
+
+    def walk(node, in_init):
+        for ch in ast.iter_child_nodes(node):
+            ii = in_init
+            if isinstance(ch, (ast.FunctionDef, ast.AsyncFunctionDef)):
+                ii = ch.name == "__init__"
+            if isinstance(ch, ast.Attribute) and isinstance(ch.ctx, (ast.Store, ast.Del)):
+                ok = ii and isinstance(ch.ctx, ast.Store) and isinstance(ch.value, ast.Name) and ch.value.id == "self"
+                (stored_in_init if ok else stored_elsewhere).add(ch.attr)
+            if isinstance(ch, ast.Call) and isinstance(ch.func, ast.Name) and ch.func.id in ("setattr", "delattr"):
+                stored_elsewhere.add("*")
+            walk(ch, ii)
+
+    for tree in trees.values():
+        for cls in ast.walk(tree):
+            if isinstance(cls, ast.ClassDef):
+                for st in cls.body:
+                    if isinstance(st, (ast.FunctionDef, ast.AsyncFunctionDef)):
+                        defined.add(st.name)
+                    elif isinstance(st, (ast.Assign, ast.AnnAssign)):
+                        for t in (st.targets if isinstance(st, ast.Assign) else [st.target]):
+                            defined |= {n.id for n in ast.walk(t) if isinstance(n, ast.Name)}
+        walk(tree, False)
+    if "*" in stored_elsewhere:
+        return set()
+    return stored_in_init - stored_elsewhere - defined
+
+
+def canonical_package_forms(trees) -> int:
+    """Load-time canonical forms that need the whole package (or are not about None / len / axis):
+
+    1. `T = T + c` / `T = T - c` with an integer literal c and T a plain name or `self.<attr>` is read as `T += c` /
+       `T -= c` (a counter; for an integer the two are the same thing, and an array is never stepped by an integer literal
+       through a re-binding in this package -- the variant that writes every counter the long way is validated against
+       the pinned suite).
+    2. A local that is bound exactly once, by `v = self.A` where A is only ever assigned in constructors, is that attribute:
+       every read of v (in a method other than __init__, `self` being the first parameter and never re-bound) is read as
+       `self.A` and the binding is dropped.  Exact: nothing can re-assign A between the binding and the read."""
+    count = 0
+    attrs = init_only_attributes(trees)
+
+    def same_place(a, b):
+        return ast.dump(a) == ast.dump(b)
+
+    for tree in trees.values():
+        # 1. counters
+        for st in [n for n in ast.walk(tree) if isinstance(n, ast.Assign)]:
+            if len(st.targets) != 1:
+                continue
+            t, v = st.targets[0], st.value
+            if not (isinstance(t, ast.Name) or (isinstance(t, ast.Attribute) and isinstance(t.value, ast.Name))):
+                continue
+            if isinstance(v, ast.BinOp) and isinstance(v.op, (ast.Add, ast.Sub)) and isinstance(v.right, ast.Constant) and type(v.right.value) is int:
+                tl = ast.Name(id=t.id, ctx=ast.Load()) if isinstance(t, ast.Name) else ast.Attribute(value=ast.Name(id=t.value.id, ctx=ast.Load()), attr=t.attr, ctx=ast.Load())
+                if same_place(tl, v.left):
+                    st.__class__ = ast.AugAssign
+                    st.target, st.op, st.value = t, v.op, v.right
+                    del st.targets
+                    count += 1
+        # 2. local aliases of constructor-only attributes
+        for cls in [n for n in ast.walk(tree) if isinstance(n, ast.ClassDef)]:
+            for fn in cls.body:
+                if not isinstance(fn, ast.FunctionDef) or fn.name == "__init__" or not fn.args.args or fn.args.args[0].arg != "self":
+                    continue
+                if any(isinstance(d, ast.Name) and d.id in ("staticmethod", "classmethod") for d in fn.decorator_list):
+                    continue
+                names = [x for x in ast.walk(fn) if isinstance(x, ast.Name)]
+                if any(x.id == "self" and isinstance(x.ctx, (ast.Store, ast.Del)) for x in names):
+                    continue
+                params = {a.arg for f in ast.walk(fn) if isinstance(f, (ast.FunctionDef, ast.AsyncFunctionDef, ast.Lambda)) for a in
+                          f.args.args + f.args.kwonlyargs + f.args.posonlyargs + ([f.args.vararg] if f.args.vararg else []) + ([f.args.kwarg] if f.args.kwarg else [])}
+                if any(isinstance(f, (ast.FunctionDef, ast.AsyncFunctionDef, ast.Lambda)) and f is not fn and any(a.arg == "self" for a in f.args.args) for f in ast.walk(fn)):
+                    continue
+                declared = {n for x in ast.walk(fn) if isinstance(x, (ast.Global, ast.Nonlocal)) for n in x.names}
+                stores = {}
+                for x in names:
+                    if isinstance(x.ctx, (ast.Store, ast.Del)):
+                        stores[x.id] = stores.get(x.id, 0) + 1
+                alias = {}
+                for st in ast.walk(fn):
+                    if isinstance(st, ast.Assign) and len(st.targets) == 1 and isinstance(st.targets[0], ast.Name) and isinstance(st.value, ast.Attribute) \
+                            and isinstance(st.value.value, ast.Name) and st.value.value.id == "self" and st.value.attr in attrs:
+                        v = st.targets[0].id
+                        if stores.get(v) == 1 and v not in params and v not in declared and v != "self":
+                            alias[v] = (st, st.value.attr)
+                if not alias:
+                    continue
+                # the binding must be a statement of the function's own top-level body (it then dominates every read that
+                # follows it; a read before it would be an UnboundLocalError in the original)
+                alias = {v: sa for v, sa in alias.items() if any(s is sa[0] for s in fn.body)}
+                if not alias:
+                    continue
+                drop = {id(sa[0]) for sa in alias.values()}
+
+                class R(ast.NodeTransformer):
+                    def visit_Name(self, node):
+                        if isinstance(node.ctx, ast.Load) and node.id in alias:
+                            return ast.copy_location(ast.Attribute(value=ast.copy_location(ast.Name(id="self", ctx=ast.Load()), node), attr=alias[node.id][1], ctx=ast.Load()), node)
+                        return node
+
+                fn.body = [R().visit(s) for s in fn.body if id(s) not in drop] or [ast.copy_location(ast.Pass(), fn.body[0])]
+                count += len(alias)
+        if count:
+            ast.fix_missing_locations(tree)
+    return count
